@@ -254,3 +254,8 @@ package js_parser
 //@ flow string-in-js-tables-come-from-the-generator.log C16: func=(*parser).visitExprInOut ; in=js_parser ; site=call NewStringInJSLog ; argpath=2:call GenerateStringInJSTable(*)
 //@ flow string-in-js-tables-come-from-the-generator.remap C16: func=(*parser).visitExprInOut ; in=js_parser ; site=call remapExprLocsInJSON ; argpath=1:call GenerateStringInJSTable(*)
 //@ flow string-in-js-tables-come-from-the-generator.rec C16: func=remapExprLocsInJSON ; in=js_parser ; site=call RemapStringInJSLoc ; argpath=0:table
+
+// C03: `delete x` is not a use of the VALUE of x: for a declared binding it evaluates to false (ECMA-262 13.5.1.2,
+// sloppy mode). An identifier that is the operand of delete must not be replaced by the constant it is bound to
+// (`delete 1` is true).
+//@ guarded inlined-constants-are-values-not-references C03: func=(*parser).handleIdentifier ; in=js_parser ; site=call ConstValueToExpr ; scenario=const_inlined_into_delete ; require=false:opts.isDeleteTarget
